@@ -48,7 +48,9 @@ func payloadSamples() map[string]proto.Message {
 func PayloadKinds() []string {
 	ks := []string{"none", "badany", "emptyany"}
 	for k := range payloadSamples() {
-		ks = append(ks, "msg:"+k)
+		// a valid message of that type, and its type URL with a value that
+		// cannot be unmarshalled
+		ks = append(ks, "msg:"+k, "corrupt:"+k)
 	}
 	sort.Strings(ks)
 	return ks
@@ -76,6 +78,14 @@ func anyOf(kind string) *types.Any {
 		return &types.Any{TypeUrl: "type.googleapis.com/does.not.Exist", Value: []byte{0xff, 0x01, 0x02}}
 	case kind == "emptyany":
 		return &types.Any{}
+	case strings.HasPrefix(kind, "corrupt:"):
+		a, err := types.MarshalAny(payloadSamples()[kind[8:]])
+		if err != nil {
+			panic("harness: " + err.Error())
+		}
+		// truncated / garbage value under a registered type URL
+		a.Value = append([]byte{0x0a, 0x7f, 0xff}, a.Value...)
+		return a
 	case strings.HasPrefix(kind, "msg:"):
 		m := payloadSamples()[kind[4:]]
 		a, err := types.MarshalAny(m)
